@@ -472,10 +472,22 @@ class Verdict:
 
 
 def load_known(pid):
+    """open findings for a property: known_findings.json (the committed list) plus, while components are
+    being integrated, one-entry files findings/*.json (merged into known_findings.json at integration)"""
+    out = []
     p = os.path.join(VERIF, "known_findings.json")
-    if not os.path.exists(p):
-        return []
-    return [k for k in json.load(open(p)).get("findings", []) if k.get("property") == pid and k.get("status") == "open"]
+    if os.path.exists(p):
+        out += json.load(open(p)).get("findings", [])
+    fd = os.path.join(VERIF, "findings")
+    if os.path.isdir(fd):
+        for f in sorted(os.listdir(fd)):
+            if f.endswith(".json"):
+                try:
+                    d = json.load(open(os.path.join(fd, f)))
+                    out += d.get("findings", [d] if "match" in d else [])
+                except Exception:
+                    pass
+    return [k for k in out if k.get("property") == pid and k.get("status") == "open"]
 
 
 def match_known(known, what):
